@@ -109,6 +109,42 @@ def r2(ctx):
     ctx.emit('C10-R2', ok, COPIES[1][0], ctx.fn(*COPIES[1]), 'sibling implementations ' + ('agree' if ok else f'differ: {sigs}'), key='siblings-agree')
 
 
+def _r3_direct(ctx, relpath, f, p, b, s):
+    """coordinate_to_bins computes the two indices itself: the range bounds are held to the same rounding obligations as the index function"""
+    env = _local_defs(f)
+    ret = [st for st in walk_no_nested(f) if isinstance(st, ast.Return)]
+    comp = ret[0].value if len(ret) == 1 else None
+    if isinstance(comp, ast.Name) and comp.id in env:
+        comp = env[comp.id]
+    if not isinstance(comp, (ast.ListComp, ast.GeneratorExp)) or len(comp.generators) != 1:
+        ctx.emit('C10-R3', False, relpath, f, 'window list is not a single comprehension over range(first, last + 1)', key='window-constructor', undecided=True)
+        return
+    g = comp.generators[0]
+    rng = g.iter
+    if not (isinstance(rng, ast.Call) and dotted(rng.func) == 'range' and len(rng.args) == 2 and not g.ifs and isinstance(g.target, ast.Name)):
+        ctx.emit('C10-R3', False, relpath, f, f'windows are not enumerated by range(first, last + 1): `{src(rng)}`', key='window-constructor', undecided=True)
+        return
+    first = rounding(rng.args[0], env=env)
+    last = rounding(ast.BinOp(left=rng.args[1], op=ast.Sub(), right=ast.Constant(value=1)), env=env)
+    if first is None or last is None:
+        ctx.emit('C10-R3', False, relpath, f, f'range bounds `{src(rng)}` are not a recognised rounding form', key='window-constructor', undecided=True)
+        return
+    okf = first.den is not None and first.num == Lin({p: 1, b: -1}) and first.den == Lin({s: 1}) and first.within(0, False, 1, True)
+    okl = last.den is not None and last.num == Lin({p: 1}) and last.den == Lin({s: 1}) and last.within(-1, False, 0, True)
+    i = g.target.id
+    elt = comp.elt
+    oke = False
+    if isinstance(elt, ast.Tuple) and len(elt.elts) == 2:
+        prod = {f'{i} * {s}', f'{s} * {i}'}
+        l0, l1 = linform(elt.elts[0]), linform(elt.elts[1])
+        oke = len(l0.coef) == 1 and list(l0.coef)[0] in prod and l0.const == 0 and list(l0.coef.values())[0] == 1 and (l1 - l0) == Lin({b: 1})
+    ctx.emit('C10-R3', okf and okl and oke, relpath, f,
+             f'windows: for {i} in {src(rng)} -> {src(elt)}; first - ({p}-{b})/{s} in {_interval_str(first)}, last - {p}/{s} in {_interval_str(last)}' +
+             ('' if okf else '; first index is not the smallest window containing the coordinate') + ('' if okl else '; last index is not the largest window containing the coordinate') +
+             ('' if oke else '; window is not (i*s, i*s+b)'), key='window-constructor',
+             what=f'coordinate_to_bins ({relpath.split("/")[-1]}): windows enumerated for a coordinate are not exactly those containing it')
+
+
 @rule('C10', 'C10-R3', 'windows are built as (i*s, i*s + b) for i = first..last inclusive from the indices returned by the index function')
 def r3(ctx):
     for relpath in (COUNTTABLE, BINNING):
@@ -125,6 +161,9 @@ def r3(ctx):
             # the result is bound to one name and its elements are read by index
             whole = [st for st in f.body if isinstance(st, ast.Assign) and len(st.targets) == 1 and isinstance(st.targets[0], ast.Name)
                      and isinstance(st.value, ast.Call) and (dotted(st.value.func) or '').endswith('coordinate_to_sliding_bin_locations')]
+            if len(whole) != 1 and not any(isinstance(c, ast.Call) and (dotted(c.func) or '').endswith('coordinate_to_sliding_bin_locations') for c in ast.walk(f)):
+                _r3_direct(ctx, relpath, f, point, b, s)
+                continue
             if len(whole) != 1:
                 raise AnalysisError('coordinate_to_bins: result of coordinate_to_sliding_bin_locations is not bound')
             call = whole[0].value
